@@ -64,7 +64,7 @@ type Sched struct {
 	Step     time.Duration
 	MaxSteps int
 	nHarness int
-	Timeouts int // number of times virtual time had to advance
+	Timeouts int           // number of times virtual time had to advance
 	Extra    time.Duration // after all harness threads are done: let this much virtual time pass (timers)
 }
 
